@@ -1188,14 +1188,16 @@ def stage_fleet(ctx, cov, failures, lines, expect, tmpdir):
         'refused': lambda: fn.Server(refuse=True),
     }
     healthy = {'pass': True, 'fail': False, 'fail2': False}
+    EXPECTED_FIELDS = {'pass': [], 'fail': ['Ciphers'], 'fail2': ['Key exchanges', 'MACs']}
     broken = [k for k in arch if k not in healthy]
     fleets = [['pass', b] for b in broken] + [[b, 'fail'] for b in broken] + [['fail', 'close-after-banner', 'pass', 'wrong-packet-type'], ['versions-differ', 'truncated-kexinit'],
-                                                                            ['pass', 'fail', 'fail2'], ['pass', 'pass']]
+                                                                            ['pass', 'fail', 'fail2'], ['pass', 'pass'],
+                                                                            ['fail', 'pass'], ['fail2', 'fail', 'pass'], ['fail', 'fail2']]
     for _ in range(ctx.scale(10, 200)):
         fleets.append([r.choice(list(arch)) for _ in range(r.choice([2, 3, 5]))])
     for names in fleets:
         for opts in ([[], ['-j']] if ctx.tier != 'thorough' else [[], ['-n'], ['-j'], ['-jj'], ['-b']]) + ([r.choice([['-n'], ['-jj'], ['-b']])] if ctx.tier != 'thorough' else []):
-            threads = r.choice([1, 2])
+            threads = r.choice([1, 2]) if names not in (['fail', 'pass'], ['fail2', 'fail', 'pass'], ['fail', 'fail2']) else 1
             ips = [mc.ip_of(i) for i in range(len(names))]
             tpath = os.path.join(tmpdir, 'fleet_targets.txt')
             with open(tpath, 'w') as f:
@@ -1225,6 +1227,13 @@ def stage_fleet(ctx, cov, failures, lines, expect, tmpdir):
                     if isinstance(d, dict) and 'passed' in d:
                         if d.get('host') in want and d.get('host') not in shown:
                             shown[d['host']] = d['passed']
+                            # C06: "passed iff the error list is empty", and the errors are this target's own (not those an earlier target left behind)
+                            fields = sorted(e.get('mismatched_field') for e in (d.get('errors') or []))
+                            exp_fields = EXPECTED_FIELDS[dict(zip(ips, names))[d['host']]]
+                            if (d['passed'] != (not fields)) or fields != exp_fields:
+                                failures.append({'for': 'C06', 'sig': {'kind': 'fleet_policy_errors_not_own'}, 'input': inp,
+                                                 'observed': {'host': d['host'], 'passed': d['passed'], 'error_fields': fields},
+                                                 'expected': {'error_fields': exp_fields, 'passed': not exp_fields}, 'how': HOW})
                         else:
                             stray.append({'host': d.get('host'), 'passed': d['passed']})
             else:
@@ -1306,7 +1315,7 @@ def compare(kind, m, want, extra):
 
 # which property a failure of this file speaks about: the clauses on the error list (entries, fields, expected / actual values, "passed iff no errors", the verdict
 # against the matching rules) are C06's; exit status, the verdict shown, option independence, incomplete audits, labels, the notice, -M / -L are C02's
-FOR_C06 = {'policy_json_error_entries', 'policy_text_error_count', 'policy_text_error_entries', 'policy_text_error_value_not_as_given', 'policy_json_errors_vs_passed',
+FOR_C06 = {'fleet_policy_errors_not_own', 'policy_json_error_entries', 'policy_text_error_count', 'policy_text_error_entries', 'policy_text_error_value_not_as_given', 'policy_json_errors_vs_passed',
            'policy_text_errors_block_vs_verdict', 'policy_json_document_vs_rules', 'evaluate_policy_return_vs_rules', 'harness_rule_transcriptions_disagree'}
 
 
